@@ -20,9 +20,11 @@ NOT_APPLICABLE = {}
 def main():
     props = [json.loads(l) for l in open(os.path.join(ROOT, "properties.jsonl"))]
     extra = {}
-    p = os.path.join(ROOT, "scripts", "manifest_checks.json")
-    if os.path.exists(p):
-        extra = json.load(open(p))
+    d = os.path.join(ROOT, "scripts", "manifest_checks.d")
+    if os.path.isdir(d):
+        for fn in sorted(os.listdir(d)):
+            if fn.endswith(".json"):
+                extra[fn[:-5]] = json.load(open(os.path.join(d, fn)))
     checks, na = [], []
     for pr in props:
         pid = pr["id"]
